@@ -2,6 +2,7 @@ import Drx.Drv.Util
 import Drx.Spec.Ast
 import Drx.Spec.Compile
 import Drx.Spec.LingoRead
+import Drx.Spec.JsRead
 namespace Drx.Drv.Lspec
 open Drx Drx.Drv Drx.Spec
 
@@ -69,6 +70,18 @@ def readLoose (text : List Char) : Option (Script × List (Option Handler) × Li
           (pHandler se (4 * ts.length + 16) ts).bind fun (h, rest) => if skipNl rest = [] then some h else none
         some ({ s with props, handlers := hs.filterMap id }, hs, names)
       | none => none
+
+/-- the functions that correspond to handlers: methods of the class if there is one, else the top-level functions -/
+def jsFuncs (tops : List JTop) : List JFunc :=
+  match tops with
+  | .cls _ _ ms :: _ => ms
+  | _ => tops.filterMap fun t => match t with | .func f => some f | _ => none
+
+/-- everything else: class name / base and the wrapper functions after the class -/
+def jsShell (tops : List JTop) : String :=
+  match tops with
+  | .cls n b _ :: rest => str (sxs "class" (renderName n :: renderName b :: rest.map JTop.render))
+  | _ => "(plain)"
 
 /-- commands of the `lspec` family (see harness/lingo_gen.py) -/
 def run : List String → Option String
@@ -141,6 +154,28 @@ def run : List String → Option String
       | .error e => some ("error:" ++ e.replace " " "_")
   -- whole <scrNum> <hex names sexpr> <hex script sexpr> -> "same" (the observable of the recompilation clause, see harness)
   | ["whole", _, _, _] => some "same"
+  -- hjs <c|p> <hex (handlers n1 n2 ...)> <hex handler sexpr> -> the JavaScript function the handler denotes (toJs), rendered
+  | ["hjs", kind, hhn, hh] => do
+    let hn ← namesOfSX (← SX.parse (← charsOfHex hhn))
+    match Handler.parse (← charsOfHex hh) with
+    | none => some "error bad-sexpr"
+    | some h => some (str (toJsFunc hn (kind == "c") h).render)
+  -- jsshell <scrNum> <hex script sexpr> -> what surrounds the handlers: class line and wrapper functions
+  | ["jsshell", scrNum, hscript] => do
+    let n ← parseNat scrNum
+    match Script.parse (← charsOfHex hscript) with
+    | none => some "error bad-sexpr"
+    | some s => some (jsShell (toJs n { s with handlers := s.handlers.map fun h => { h with body := [] } }))
+  -- readjs <hex text> -> ok \t <shell> { \t <function> } | error   (strict: the whole text must be valid)
+  | ["readjs", htext] => do
+    match readJs (← charsOfHex htext) with
+    | some tops => some ("\t".intercalate ("ok" :: jsShell tops :: (jsFuncs tops).map fun f => str f.render))
+    | none => some "error"
+  -- readjsfn <m|f> <hex text of one method / function> -> rendered function | error
+  | ["readjsfn", kind, htext] => do
+    match readJsFunc (kind == "m") (← charsOfHex htext) with
+    | some f => some (str f.render)
+    | none => some "error"
   -- const <x> -> x (expected value of an observable the spec fixes, e.g. the number of raw jump pseudo-statements: 0)
   | ["const", x] => some x
   | _ => none
